@@ -692,11 +692,22 @@ static const long long IDLE_S = 1000000;       // connectionIdleTimeout of the c
 static long long g_requestTimeoutMs = 400;
 static std::atomic<long long> g_opDeadlineReal{0};
 
+static std::atomic<bool> g_realtime{false}; // virtual clock = real clock (no scaling, no warps): measures real time-outs
+
+// change the scale without a jump of the virtual clock
+static void setScale(long long sc)
+{
+  long long v = virtNowNs();
+  long long r = realMonoNs();
+  g_scale = sc;
+  g_voff = v - (g_anchor + (r - g_anchor) / sc);
+}
+
 static void warperLoop()
 {
   for (;;)
   {
-    if (g_wantTimeout.load())
+    if (g_wantTimeout.load() && !g_realtime.load())
     {
       g_voff += 20LL * 1000000LL; // +20 ms virtual
       g_warps++;
@@ -913,7 +924,7 @@ static bool parseFault(const std::string& tok, Fault& f)
     f.asyncFail = fs[2] == "0";
   }
   auto cs = splitc(conc, ',');
-  if (cs.size() != 5 || cs[0].empty() || cs[3].size() != 1) return false;
+  if ((cs.size() != 5 && cs.size() != 6) || cs[0].empty() || cs[3].size() != 1) return false; // 6th field: generator's note (expected body), unused here
   f.reqAct = cs[0][0];
   if (std::string("nawrfs").find(f.reqAct) == std::string::npos) return false;
   if (!parseLL(cs[0].substr(1), f.k)) return false;
@@ -1136,6 +1147,13 @@ int main()
         Bytes m;
         if (!vh::ofHex(t[1], m)) return "bad-op";
         return HttpClient::isIdempotentMethod(std::string(m.begin(), m.end())) ? "1" : "0";
+      }
+      if (t.size() == 2 && t[0] == "vclock" && (t[1] == "0" || t[1] == "1"))
+      {
+        // vclock 0: from now on time-outs are real (the following requests take their configured time-outs in real time)
+        g_realtime = t[1] == "0";
+        setScale(g_realtime.load() ? 1 : 50);
+        return "ok";
       }
       if (t.size() == 1 && t[0] == "stats")
       {
